@@ -731,4 +731,4 @@ def _obligations():
 
 
 def obligations():
-    return _obligations() + [labels_obligation("C02"), selectors_obligation("C02"), effects_obligation("C02"), plumbing_obligation("C02"), overrides_obligation("C02"), options_obligation("C02"), handlers_obligation("C02")]
+    return _obligations() + [labels_obligation("C02"), selectors_obligation("C02"), mutations_obligation("C02"), effects_obligation("C02"), plumbing_obligation("C02"), overrides_obligation("C02"), options_obligation("C02"), handlers_obligation("C02")]
